@@ -12,7 +12,7 @@ The generated files are consumed by theorems that are re-elaborated on every run
 Exit status 0 = translated; non-zero = the translation itself broke (reported by check.py
 as a broken obligation).
 """
-import os, re, subprocess, sys, hashlib, json, tempfile, shutil
+import os, re, subprocess, sys, hashlib, json, tempfile, shutil, glob
 
 HERE = os.path.dirname(os.path.abspath(__file__))
 VERIF = os.path.dirname(HERE)
@@ -209,6 +209,100 @@ def emit_constants(text):
     return "\n".join(L) + "\n"
 
 
+
+# ---------------------------------------------------------------------------------------------
+# T2: inventory of writable static-storage symbols and imported C functions of the library
+def t2(workdir):
+    srcs = sorted(glob.glob(os.path.join(REPO, "src", "*.cpp")))
+    hdrs = sorted(glob.glob(os.path.join(REPO, "src", "*.h")))
+    hh = hashlib.sha256(b"".join(open(h, "rb").read() for h in hdrs)).hexdigest()
+    objdir = os.path.join(CACHE, "t2obj")
+    os.makedirs(objdir, exist_ok=True)
+    objs = []
+    procs = []
+    for sfile in srcs:
+        key = hashlib.sha256((hh + open(sfile).read()).encode()).hexdigest()[:24]
+        obj = os.path.join(objdir, key + ".o")
+        objs.append(obj)
+        if not os.path.exists(obj):
+            procs.append((obj, subprocess.Popen(["g++", "-std=gnu++14", "-msse4", "-O0", "-g", "-I", os.path.join(REPO, "src"),
+                                                 "-c", sfile, "-o", obj + ".tmp"], stdout=subprocess.PIPE, stderr=subprocess.PIPE, text=True)))
+    for obj, pr in procs:
+        out, err = pr.communicate()
+        if pr.returncode != 0:
+            sys.stderr.write("T2: a library source does not compile\n" + err[-2000:])
+            return None
+        os.replace(obj + ".tmp", obj)
+    # prune old objects
+    keep = set(objs)
+    for f in os.listdir(objdir):
+        p = os.path.join(objdir, f)
+        if p not in keep and os.path.getmtime(p) < __import__("time").time() - 3600:
+            os.remove(p)
+    writable = {}   # demangled name -> (class)
+    imports = set()
+    for obj in objs:
+        tls = set()
+        r = sh(["readelf", "-sW", obj])
+        for line in r.stdout.splitlines():
+            parts = line.split()
+            if len(parts) >= 8 and parts[3] == "TLS":
+                tls.add(parts[7])
+        r = sh(["nm", obj])
+        mangled_w = [l.split()[-1] for l in r.stdout.splitlines() if len(l.split()) >= 3 and l.split()[-2] in "bBdD"]
+        r = sh(["nm", "-C", obj])
+        names = []
+        for l in r.stdout.splitlines():
+            p = l.split(None, 2)
+            if len(p) == 3 and p[1] in ("b", "B", "d", "D"):
+                names.append(p[2])
+            elif len(p) == 2 and p[0] == "U":
+                imports.add(p[1])
+        mang_of = dict(zip(names, mangled_w)) if len(names) == len(mangled_w) else {}
+        todo = []
+        for n in names:
+            if n in writable and writable[n] != "mutable":
+                continue
+            if n.startswith(("typeinfo for", "typeinfo name for", "vtable for", "VTT for", "guard variable for", "construction vtable")) \
+               or n in ("std::__ioinit",) or n.startswith("DW.ref."):
+                writable[n] = "runtime"
+            elif mang_of.get(n) in tls:
+                writable[n] = "threadLocal"
+            else:
+                todo.append(n)
+        if todo:
+            args = ["gdb", "-batch"]
+            for n in todo:
+                args += ["-ex", "echo @@%s@@\\n" % n.replace("\\", ""), "-ex", "whatis '%s'" % n]
+            r = sh(args + [obj])
+            cur = None
+            for line in (r.stdout + r.stderr).splitlines():
+                m = re.match(r"@@(.*)@@", line)
+                if m:
+                    cur = m.group(1); continue
+                if cur and line.startswith("type = "):
+                    writable[cur] = "constQualified" if line.startswith("type = const ") else "mutable"
+                    cur = None
+            for n in todo:
+                writable.setdefault(n, "mutable")      # unknown to the debugger: treated as mutable (conservative)
+    cimports = sorted(n for n in imports if "::" not in n and "(" not in n and " " not in n and not n.startswith(("_Z", "__", "_GLOBAL", "_Unwind", "DW.")))
+    return writable, cimports
+
+
+def emit_globals(writable, cimports):
+    L = ["/- GENERATED by tools/translate.py (T2) from objects built from the working tree of /repo – do not edit.",
+         "   writable static-storage symbols (nm sections b/B/d/D) with their class: constQualified (top-level const in the DWARF",
+         "   type: written once by its initialiser), threadLocal, runtime (typeinfo, vtables, std::__ioinit, guards) or mutable;",
+         "   imported C functions (undefined, unmangled symbols). -/",
+         "namespace CdnsVerif.Generated", "",
+         "def writableSymbols : List (String × String) := ["]
+    L.append(",\n".join('  ("%s", "%s")' % (n.replace('"', "'").replace("\\", ""), c) for n, c in sorted(writable.items())))
+    L += ["]", "", "def importedSymbols : List String := ["]
+    L.append(",\n".join('  "%s"' % n for n in cimports))
+    L += ["]", "", "end CdnsVerif.Generated", ""]
+    return "\n".join(L)
+
+
 def write_if_changed(path, content):
     try:
         if open(path).read() == content:
@@ -232,6 +326,11 @@ def main():
             ok = False
         else:
             write_if_changed(os.path.join(GEN, "Constants.lean"), emit_constants(text))
+        g = t2(work)
+        if g is None:
+            ok = False
+        else:
+            write_if_changed(os.path.join(GEN, "Globals.lean"), emit_globals(*g))
     finally:
         shutil.rmtree(work, ignore_errors=True)
     return 0 if ok else 2
